@@ -22,6 +22,7 @@ import (
 	"os"
 	"reflect"
 	"strconv"
+	"strings"
 	"unicode/utf8"
 	"unsafe"
 )
@@ -437,3 +438,111 @@ func vRSAPSSSign(key *rsa.PrivateKey, hash int, digest []byte) []byte {
 // that existed before vFreeze. Not observable natively (the native oracle for
 // such properties is a deep comparison with a snapshot).
 func vWritesInto(x any) int { return 0 }
+
+// vGlobalWrites: stores into package-level variables since vFreeze (not observable natively)
+func vGlobalWrites() int { return 0 }
+
+// ---- snapshots (native oracle for the frame conditions of C12 / C18) ------------------------------------
+
+type vSnap struct {
+	copy any
+}
+
+// vSnapshot takes a deep copy of everything reachable from x.
+func vSnapshot(x any) *vSnap {
+	return &vSnap{copy: vDeepCopy(reflect.ValueOf(x), map[uintptr]reflect.Value{}).Interface()}
+}
+
+// vChanged: was anything reachable from x written since the snapshot?
+// (solver: the interpreter's write monitor; natively: deep comparison)
+func vChanged(x any, s *vSnap) bool {
+	return !reflect.DeepEqual(x, s.copy)
+}
+
+func vDeepCopy(v reflect.Value, seen map[uintptr]reflect.Value) reflect.Value {
+	if !v.IsValid() {
+		return v
+	}
+	switch v.Kind() {
+	case reflect.Ptr:
+		if v.IsNil() {
+			return reflect.Zero(v.Type())
+		}
+		if c, ok := seen[v.Pointer()]; ok {
+			return c
+		}
+		if p := v.Type().Elem().PkgPath(); strings.HasPrefix(p, "crypto/elliptic") || strings.HasPrefix(p, "crypto/internal") || p == "sync" {
+			return v // stdlib curve implementations (they hold funcs): shared, compared by identity
+		}
+		n := reflect.New(v.Type().Elem())
+		seen[v.Pointer()] = n
+		vCopyInto(n.Elem(), v.Elem(), seen)
+		return n
+	case reflect.Interface:
+		if v.IsNil() {
+			return reflect.Zero(v.Type())
+		}
+		n := reflect.New(v.Type()).Elem()
+		n.Set(vDeepCopy(v.Elem(), seen))
+		return n
+	}
+	n := reflect.New(v.Type()).Elem()
+	vCopyInto(n, v, seen)
+	return n
+}
+
+func vCopyInto(dst, src reflect.Value, seen map[uintptr]reflect.Value) {
+	if !dst.CanSet() {
+		dst = reflect.NewAt(dst.Type(), unsafe.Pointer(dst.UnsafeAddr())).Elem()
+	}
+	if !src.CanInterface() && src.CanAddr() {
+		src = reflect.NewAt(src.Type(), unsafe.Pointer(src.UnsafeAddr())).Elem()
+	}
+	switch src.Kind() {
+	case reflect.Struct:
+		// addressable copy of src so that unexported fields can be read
+		if !src.CanAddr() {
+			tmp := reflect.New(src.Type()).Elem()
+			tmp.Set(src)
+			src = tmp
+		}
+		for i := 0; i < src.NumField(); i++ {
+			vCopyInto(dst.Field(i), src.Field(i), seen)
+		}
+	case reflect.Slice:
+		if src.IsNil() {
+			return
+		}
+		n := reflect.MakeSlice(src.Type(), src.Len(), src.Cap())
+		for i := 0; i < src.Len(); i++ {
+			vCopyInto(n.Index(i), src.Index(i), seen)
+		}
+		dst.Set(n)
+	case reflect.Map:
+		if src.IsNil() {
+			return
+		}
+		n := reflect.MakeMapWithSize(src.Type(), src.Len())
+		it := src.MapRange()
+		for it.Next() {
+			n.SetMapIndex(vDeepCopy(it.Key(), seen), vDeepCopy(it.Value(), seen))
+		}
+		dst.Set(n)
+	case reflect.Ptr, reflect.Interface:
+		c := vDeepCopy(src, seen)
+		if c.IsValid() {
+			dst.Set(c)
+		}
+	case reflect.Array:
+		for i := 0; i < src.Len(); i++ {
+			vCopyInto(dst.Index(i), src.Index(i), seen)
+		}
+	case reflect.Func, reflect.Chan, reflect.UnsafePointer:
+		// shared as is
+		if src.CanInterface() {
+			dst.Set(src)
+		}
+	default:
+		dst.Set(src)
+	}
+}
